@@ -32,11 +32,15 @@ def plan(tier):
 @st.composite
 def params(draw):
     p = {}
+    # non-default values: explicit magnitudes + jitter inside the stated range (Hypothesis' bounded floats cluster at the lower
+    # bound and at simple values; the interesting combinations - e.g. merge_threshold above bond_threshold - need spread)
+    def spread(lo, hi):
+        return st.builds(lambda k, e: min(hi, lo + (hi - lo) * (k + e) / 5.0), st.sampled_from([2, 0, 4, 1, 3]), gc.ffloat(0.0, 1.0))
     p["bond_threshold"] = draw(st.sampled_from([0.65, None]))
     if p["bond_threshold"] is None:
-        p["bond_threshold"] = draw(gc.ffloat(0.3, 1.2))
+        p["bond_threshold"] = draw(spread(0.3, 1.2))
     for k, dflt, lo, hi in (("pos_tol", 0.7, 0.1, 1.0), ("max_cell_size", 6.0, 3.0, 9.0), ("merge_threshold", 0.5, 0.1, 0.9)):
-        p[k] = dflt if draw(st.booleans()) is False else draw(gc.ffloat(lo, hi))
+        p[k] = dflt if draw(st.booleans()) is False else draw(spread(lo, hi))
     p["radii"] = draw(st.sampled_from(["covalent", "vdw", "vdw_covalent", "custom"]))
     p["custom_seed"] = draw(messy.seeds)
     p["seed"] = draw(st.integers(0, 10 ** 6))
